@@ -68,7 +68,7 @@ ChunkAlphabet == {13, 10, 48, 50, 97, 103}                      \* CR LF '0' '2'
 MalChunks(n) == {[kind |-> "cbody", bytes |-> x] : x \in Strings(ChunkAlphabet, n)}
 Truncations(ms) == UNION {{[m EXCEPT !.bytes = SubSeq(m.bytes, 1, k)] : k \in 0..(Len(m.bytes) - 1)} : m \in ms}
 MalQuick(x) == MalHeads(3) \cup MalStarts(3) \cup MalChunks(4) \cup Truncations(HeadsQuick(x))
-MalThorough(x) == MalHeads(5) \cup MalStarts(5) \cup MalChunks(6) \cup Truncations(HeadsThorough(x))
+MalThorough(x) == MalHeads(5) \cup MalStarts(4) \cup MalChunks(6) \cup Truncations(HeadsThorough(x))
 \* scope of the known-finding configuration: one witness per KF switch
 KfScope(x) == {M("req", <<71,69,84,32,47,32,72,84,84,80,47,49,46,49,13,10,13,10>>),                       (* GET / HTTP/1.1\r\n\r\n *)
                M("resp", P_RESP \o <<65,117,116,104,111,114,105,122,97,116,105,111,110,58,32,120>> \o CRLFCRLF),  (* Authorization: x *)
